@@ -94,6 +94,28 @@ def body_api(case, rec):
             raise Violation(f"one FastaStream used for two outputs: output {n_ + 1} does not hold exactly its own assembly")
 
 
+def large_cases(tier, shard, nshards):
+    """
+    records of 150-400 kbp and rows of 64 KiB and more, streamed with the default buffer (250 000) and buffers around
+    2**16: the sizes pretext-to-asm really works with (the generated cases above stay below 1 kbp)
+    """
+    from vf.props.c04 import pseudo_residues
+
+    k = 0
+    for width in (60, 61, 1000):
+        for eol in ("\n", "\r\n"):
+            for buf in (250_000, 70_000, 65_536, 65_535):
+                k += 1
+                if k % nshards != shard:
+                    continue
+                n1, n2 = 150_000 + 7 * width + 3, 400_000 + width
+                recs = [["big1", "", pseudo_residues(n1, f"x{width}"), width, eol], ["big2", " d", pseudo_residues(n2, f"y{width}"), width, eol]]
+                rows1 = [["F", "big1", 1, n1, 1], ["G", 200, "scaffold"], ["F", "big2", 5, 5 + 65_536 + 2 * width, -1], ["F", "big2", 100_001, 100_000 + 66_000, 1]]
+                rows2 = [["F", "big2", 1, n2, -1], ["G", 70_000, "scaffold"], ["F", "big1", width + 1, min(n1, width * 1200), 1]]
+                yield {"fasta": {"records": recs, "final_newline": k % 2 == 0}, "scaffolds": [["out1", rows1], ["out2", rows2]],
+                       "buffer": buf, "line_length": 60}
+
+
 def parse_fasta_records(data: bytes):
     return [(r["name"], r["seq"]) for r in ref.read_fasta(data)]
 
@@ -245,6 +267,8 @@ def cli_cases(draw):
 SUBS = [
     Sub("api", kind="hyp", strategy=api_cases, body=body_api,
         budget={"quick": 6400, "thorough": 120000}, desc="FastaStream over arbitrary assemblies vs reference 'apply AGP to FASTA'"),
+    Sub("large", kind="enum", cases=large_cases, body=body_api,
+        budget={"quick": 24, "thorough": 24}, desc="150-400 kbp records, rows of 64 KiB and more, LF/CRLF, widths 60/61/1000, default buffer and buffers around 2**16"),
     Sub("cli", kind="hyp", strategy=cli_cases, body=body_cli, shrink=True,
         budget={"quick": 160, "thorough": 3000}, desc="pretext-to-asm FASTA output vs its AGP companion applied to the input FASTA"),
 ]
